@@ -255,7 +255,7 @@ def main():
                "Extension modules X01 (Printing), X02 (MatAlgebra), X03 (DenseElem) extend the specification beyond the 20 "
                "listed properties (./check X0n --tier quick|thorough; evidence in evidence_ext/, divergences printed as "
                "EXT-VIOLATION); they are not claimed as property checks.  Every driver rotates the memory layout and the "
-               "element type of the arrays handed to pyttb (DESIGN 12.8)."),
+               "element type of the arrays handed to pyttb (DESIGN 12.7)."),
      "not_applicable": []
     }
     engines = {}
